@@ -113,7 +113,30 @@ PartRows == {[part |-> "cstr1", payload |-> p, accept |-> CStrAccepts(p),
               value |-> IF CStrAccepts(p) THEN CStrValue(p) ELSE <<>>] : p \in Payloads}
 ASSUME \A r \in PartRows : r.accept => Len(r.value) + 1 = Len(r.payload)
 
-EmitTables == PrintT(<<"VEDGE", ToJson([tables |-> Tables, grammars |-> Grammars, parts |-> PartRows])>>)
+\* ---- "tagged": a digest is encoded only when its length is the size of its algorithm (over-long and
+\*      short digests are refused, not truncated or padded); payload = <<algorithm id, digest length>> ----
+AlgSize == [a \in {4, 11, 12} |-> CASE a = 4 -> 20 [] a = 11 -> 32 [] a = 12 -> 48]
+TaggedRows == {[part |-> "tagged", payload |-> <<a, n>>, accept |-> (n = AlgSize[a]), value |-> <<>>] :
+                 a \in {4, 11, 12}, n \in {0, 19, 20, 21, 31, 32, 33, 40, 47, 48, 49, 64, 96}}
+\* ---- "guidhob": an EFI_HOB_GUID_TYPE with L bytes of data (padded to 8) has a 16-bit total length:
+\*      header 24 + padded data must fit, and what is written, the encoded length and the returned
+\*      count agree; payload = <<L>>, value = <<total length>> ----
+Pad8(n) == ((n + 7) \div 8) * 8
+GuidHobRows == {[part |-> "guidhob", payload |-> <<n>>, accept |-> (24 + Pad8(n) <= 65535),
+                 value |-> IF 24 + Pad8(n) <= 65535 THEN <<24 + Pad8(n)>> ELSE <<>>] :
+                  n \in {0, 1, 8, 4096, 65496, 65503, 65504, 65505, 65511, 65512, 65513, 65520, 70000, 131072}}
+ASSUME \A r \in GuidHobRows : r.accept <=> r.payload[1] <= 65504
+
+\* Decoder contracts.  A structure whose bytes arrive as a block of their own (its size is declared by
+\* the GUID table, or it is a GUID value) is decoded size-exact: a longer byte string is refused, since
+\* its tail would be dropped without notice and the accepted string would not re-encode to itself.
+\* The other records are read at an offset of the image (header, then entries): their decoders take
+\* the bytes from that offset on and read the structure's own length -- "prefix" decoders, for which
+\* the accepted byte string is the structure's prefix of the buffer.
+ExactDecoders == {"EfiGuid", "SevEsResetBlock"}
+ASSUME ExactDecoders \subseteq DOMAIN Tables
+EmitTables == PrintT(<<"VEDGE", ToJson([tables |-> Tables, grammars |-> Grammars, parts |-> PartRows \cup TaggedRows \cup GuidHobRows,
+                                        exact |-> ExactDecoders])>>)
 ASSUME EmitTables
 Emit == PrintT(<<"VCASE", ToJson([s |-> pick.s, field |-> Tables[pick.s].fields[pick.f].name, cls |-> pick.c])>>)
 =============================================================================
